@@ -131,6 +131,7 @@ where
             }
         }
 
-        Poll::Ready(Ok(()))
+        // The EOF marker may only be buffered in the inner writer (e.g., a `tokio::fs::File`).
+        Pin::new(&mut inner).poll_shutdown(cx)
     }
 }
